@@ -178,7 +178,8 @@ def corruptions(root, doc, rng, limit):
             find_all(cs.children[ci], "BaseContainer")[0].attrs["containerRef"] = "NoSuchBase"
             out.append(("rename-baseref", "BaseContainer", True, "reject", r))
             r, pts, ps, cs = fresh()
-            find_all(cs.children[ci], "BaseContainer")[0].attrs["containerRef"] = ps.children[ci % len(ps.children)].attrs["name"]
+            only_params = [p.attrs["name"] for p in ps.children if p.attrs["name"] not in {c_.attrs["name"] for c_ in cs.children}]
+            find_all(cs.children[ci], "BaseContainer")[0].attrs["containerRef"] = only_params[ci % len(only_params)]
             out.append(("repoint-to-other-kind", "BaseContainer->parameter-name", True, "reject", r))
     # ---- duplicates ----------------------------------------------------------------------------------------------------
     for i, t in enumerate(pts0.children):
